@@ -9,32 +9,38 @@ STREAMS = {
     'detector': dict(pkg='./cmd/detector', overlay={'motion/zz_verif_motion.go': 'motion/zz_verif_motion.go'}),
     'fs': dict(daemon='./cmd/thermal-recorder', strace=True, confirm=True,
                overlay={'cmd/thermal-recorder/zz_verif_zz_main.go': 'thermal-recorder/zz_verif_main.go',
+                'cmd/thermal-recorder/zz_verif_logvars.go': 'thermal-recorder/zz_verif_logvars.go', 'cmd/thermal-recorder/zz_verif_nologvars.go': 'thermal-recorder/zz_verif_nologvars.go',
                         'cmd/thermal-recorder/zz_verif_fs.go': 'thermal-recorder/zz_verif_fs.go',
                         'cmd/thermal-recorder/zz_verif_e2e.go': 'thermal-recorder/zz_verif_e2e.go'}),
     'names': dict(daemon='./cmd/thermal-recorder', confirm=True,
                   overlay={'cmd/thermal-recorder/zz_verif_zz_main.go': 'thermal-recorder/zz_verif_main.go',
+                'cmd/thermal-recorder/zz_verif_logvars.go': 'thermal-recorder/zz_verif_logvars.go', 'cmd/thermal-recorder/zz_verif_nologvars.go': 'thermal-recorder/zz_verif_nologvars.go',
                            'cmd/thermal-recorder/zz_verif_fs.go': 'thermal-recorder/zz_verif_fs.go',
                            'cmd/thermal-recorder/zz_verif_e2e.go': 'thermal-recorder/zz_verif_e2e.go'}),
     'e2e': dict(daemon='./cmd/thermal-recorder', confirm=True,
                 overlay={'cmd/thermal-recorder/zz_verif_zz_main.go': 'thermal-recorder/zz_verif_main.go',
+                'cmd/thermal-recorder/zz_verif_logvars.go': 'thermal-recorder/zz_verif_logvars.go', 'cmd/thermal-recorder/zz_verif_nologvars.go': 'thermal-recorder/zz_verif_nologvars.go',
                          'cmd/thermal-recorder/zz_verif_fs.go': 'thermal-recorder/zz_verif_fs.go',
                          'cmd/thermal-recorder/zz_verif_e2e.go': 'thermal-recorder/zz_verif_e2e.go'}),
     'daemon': dict(daemon='./cmd/thermal-recorder', confirm=True,
                    overlay={'cmd/thermal-recorder/zz_verif_zz_main.go': 'thermal-recorder/zz_verif_main.go',
+                'cmd/thermal-recorder/zz_verif_logvars.go': 'thermal-recorder/zz_verif_logvars.go', 'cmd/thermal-recorder/zz_verif_nologvars.go': 'thermal-recorder/zz_verif_nologvars.go',
                             'cmd/thermal-recorder/zz_verif_fs.go': 'thermal-recorder/zz_verif_fs.go',
                             'cmd/thermal-recorder/zz_verif_e2e.go': 'thermal-recorder/zz_verif_e2e.go',
                             'cmd/thermal-recorder/zz_verif_daemon.go': 'thermal-recorder/zz_verif_daemon.go'}),
     'conc': dict(daemon='./cmd/thermal-recorder', race=True,
                  overlay={'cmd/thermal-recorder/zz_verif_zz_main.go': 'thermal-recorder/zz_verif_main.go',
+                'cmd/thermal-recorder/zz_verif_logvars.go': 'thermal-recorder/zz_verif_logvars.go', 'cmd/thermal-recorder/zz_verif_nologvars.go': 'thermal-recorder/zz_verif_nologvars.go',
                           'cmd/thermal-recorder/zz_verif_fs.go': 'thermal-recorder/zz_verif_fs.go',
                           'cmd/thermal-recorder/zz_verif_e2e.go': 'thermal-recorder/zz_verif_e2e.go',
                           'cmd/thermal-recorder/zz_verif_conc.go': 'thermal-recorder/zz_verif_conc.go'}),
     'parse': dict(daemon='./cmd/thermal-recorder',
                   overlay={'cmd/thermal-recorder/zz_verif_zz_main.go': 'thermal-recorder/zz_verif_main.go',
+                'cmd/thermal-recorder/zz_verif_logvars.go': 'thermal-recorder/zz_verif_logvars.go', 'cmd/thermal-recorder/zz_verif_nologvars.go': 'thermal-recorder/zz_verif_nologvars.go',
                           'cmd/thermal-recorder/zz_verif_fs.go': 'thermal-recorder/zz_verif_fs.go',
                           'cmd/thermal-recorder/zz_verif_e2e.go': 'thermal-recorder/zz_verif_e2e.go',
                           'cmd/thermal-recorder/zz_verif_parse.go': 'thermal-recorder/zz_verif_parse.go'}),
-    'writer': dict(daemon='./cmd/thermal-writer', confirm=True, overlay={'cmd/thermal-writer/zz_verif_writer.go': 'thermal-writer/zz_verif_writer.go'}),
+    'writer': dict(daemon='./cmd/thermal-writer', confirm=True, overlay={'cmd/thermal-writer/zz_verif_writer.go': 'thermal-writer/zz_verif_writer.go', 'cmd/thermal-writer/zz_verif_logvars.go': 'thermal-writer/zz_verif_logvars.go', 'cmd/thermal-writer/zz_verif_nologvars.go': 'thermal-writer/zz_verif_nologvars.go'}),
     'leptond': dict(daemon='./cmd/leptond', overlay={'cmd/leptond/zz_verif_leptond.go': 'leptond/zz_verif_leptond.go'}),
     'leptondloop': dict(daemon='./cmd/leptond', overlay=dict(
         [('cmd/leptond/zz_verif_leptondloop.go', 'leptondloop/zz_verif_leptondloop.go'),
@@ -78,7 +84,7 @@ PROPS = {
         assumptions=['capacity >= 1 (NewFrameLoop(0) divides by zero on the first Move; the daemon sizes it preview*fps+trigger-frames)'],
     ),
     'C20': dict(
-        lean=['Props.C20', 'Props.FactsProc'],
+        lean=['Props.C20', 'Props.FactsLog'],
         streams=['loglimiter'],
         rule='histories of (time, message) arrivals over 1-3 messages with steps in {0,1,iv-1,iv,iv+1,iv/2,2iv,iv/3} '
              '(thorough: plus every history of length <= 5 over 3 messages x 4 time steps); non-trivial = at least one '
@@ -87,7 +93,7 @@ PROPS = {
         assumptions=['non-decreasing clock', 'the zero time.Time of a fresh limiter is further than any interval before the first arrival'],
     ),
     'C05': dict(
-        lean=['Props.C05', 'Props.C05Composed', 'Props.PipeThr', 'Props.FactsWiring'],
+        lean=['Props.C05', 'Props.C05Composed', 'Props.PipeThr', 'Props.FactsThrottleWiring'],
         streams=['throttle', 'e2e'],
         rule='request/clock schedules in five phase styles (burst at one instant, camera-rate, churn at the tick boundary +-1 ns, long idles, '
              'one-clip refills) with scripted base-recorder failures in 35% of cases; the window monitor checks all O(n^2) windows of each case; '
@@ -97,50 +103,50 @@ PROPS = {
         assumptions=['non-decreasing clock', 'bucket-size*fps >= 1 and (min+preview)*fps >= 1 (the library panics on capacity 0; rate 0 is undefined)'],
     ),
     'C01': dict(
-        lean=['Props.C01', 'Props.C01Spec', 'Props.PipeThr', 'Props.FactsProc'],
+        lean=['Props.C01', 'Props.C01Spec', 'Props.PipeThr', 'Props.FactsRing'],
         streams=['processor'],
         project={'processor': r'^< (md|m\.|re|rs|ret|panic)'}, rule=PROC_RULE, trusted=PROC_TRUSTED,
         assumptions=PROC_ASSUME['C01'],
     ),
     'C02': dict(
-        lean=['Props.C02', 'Props.PipeC03', 'Props.FactsProc'],
+        lean=['Props.C02', 'Props.PipeC03', 'Props.FactsRing'],
         streams=['processor'],
         project={'processor': r'^< (md|m\.|re|rs|ret|panic)'}, rule=PROC_RULE, trusted=PROC_TRUSTED,
         assumptions=PROC_ASSUME['C02'],
     ),
     'C03': dict(
-        lean=['Props.C03', 'Props.C03Spec', 'Props.PipeC03', 'Props.FactsProc'],
+        lean=['Props.C03', 'Props.C03Spec', 'Props.PipeC03', 'Props.FactsRing', 'Props.FactsLimits', 'Props.FactsRecorderConfig'],
         streams=['processor', 'e2e', 'daemon'],
         project={'processor': r'^< (md|m\.|re|rs|ret|panic)', 'e2e': r'^< config', 'daemon': r'^< start'}, rule=PROC_RULE, trusted=PROC_TRUSTED,
         assumptions=PROC_ASSUME['C03'],
     ),
     'C04': dict(
-        lean=['Props.C04', 'Props.C04Spec', 'Props.PipeC04', 'Props.C04Window', 'Props.FactsProc'],
+        lean=['Props.C04', 'Props.C04Spec', 'Props.PipeC04', 'Props.C04Window', 'Props.FactsGates', 'Props.FactsRecorderConfig'],
         streams=['processor', 'window', 'fs', 'e2e'],
         project={'processor': r'^< (md|m\.|re|rs|ret|panic)', 'fs': r'^< gate', 'e2e': r'^$'}, rule=PROC_RULE, trusted=PROC_TRUSTED,
         assumptions=PROC_ASSUME['C04'],
     ),
     'C12': dict(
-        lean=['Props.C12', 'Props.C12Spec', 'Props.FactsProc'],
+        lean=['Props.C12', 'Props.C12Spec', 'Props.FactsRing'],
         streams=['processor', 'fs', 'throttle', 'e2e'],
         project={'fs': r'^< (ret|panic)', 'throttle': r'^$', 'e2e': r'^$'},
         rule=PROC_RULE, trusted=PROC_TRUSTED,
         assumptions=PROC_ASSUME['C12'],
     ),
     'C13': dict(
-        lean=['Props.C13', 'Props.C13Spec', 'Props.C13Parse', 'Props.FactsProc', 'Props.FactsWiring', 'Props.Pipeline'],
+        lean=['Props.C13', 'Props.C13Spec', 'Props.C13Parse', 'Props.FactsRing', 'Props.FactsParserSel', 'Props.Pipeline'],
         streams=['processor', 'e2e', 'parse'],
         rule=PROC_RULE, trusted=PROC_TRUSTED,
         assumptions=PROC_ASSUME['C13'],
     ),
     'C17': dict(
-        lean=['Props.C17', 'Props.C17Spec', 'Props.PipeC17', 'Props.FactsProc', 'Props.Pipeline'],
+        lean=['Props.C17', 'Props.C17Spec', 'Props.PipeC17', 'Props.FactsRing', 'Props.FactsLimits', 'Props.FactsTestRec', 'Props.Pipeline'],
         streams=['processor', 'e2e', 'names', 'daemon'],
         project={'processor': r'^< (c\.|t\.|ret|panic)', 'daemon': r'^$'}, rule=PROC_RULE, trusted=PROC_TRUSTED,
         assumptions=PROC_ASSUME['C17'],
     ),
     'C06': dict(
-        lean=['Props.C06', 'Props.C06Spec', 'Props.C11Thr', 'Props.PipeThr', 'Props.FactsWiring'],
+        lean=['Props.C06', 'Props.C06Spec', 'Props.C11Thr', 'Props.PipeThr', 'Props.FactsThrottleWiring'],
         streams=['throttle', 'e2e'],
         project={'e2e': r'^$'},
         rule='same schedules as C05 (five phase styles, base-recorder start/write/stop failures in 35% of cases, restarts in the middle of a trigger); '
@@ -149,28 +155,28 @@ PROPS = {
         assumptions=['at the excluded point "start; start" the real code forwards two starts (unreachable from the daemon)'],
     ),
     'C07': dict(
-        lean=['Props.C07', 'Props.FactsProc', 'Props.PipeC09'],
+        lean=['Props.C07', 'Props.FactsReset', 'Props.FactsFFC', 'Props.PipeC09'],
         streams=['detector', 'processor'],
         project={'processor': r'^< det'},
         rule=DET_RULE, trusted=DET_TRUSTED,
         assumptions=['fixed threshold, no FFC-affected frame (C09 covers FFC)', 'count-thresh >= 1', 'pixel values < 65536 (uint16 in the real code)'],
     ),
     'C08': dict(
-        lean=['Props.C08', 'Props.C13Parse', 'Props.FactsProc'],
+        lean=['Props.C08', 'Props.C13Parse', 'Props.FactsFFC'],
         streams=['detector', 'parse', 'processor'],
         project={'parse': r'^$', 'processor': r'^< parser-edge'},
         rule=DET_RULE, trusted=DET_TRUSTED,
         assumptions=['same event skeleton (resets, FFC flags) in both streams'],
     ),
     'C09': dict(
-        lean=['Props.C09', 'Props.PipeC09', 'Props.FactsProc'],
+        lean=['Props.C09', 'Props.PipeC09', 'Props.FactsReset', 'Props.FactsFFC'],
         streams=['detector', 'processor'],
         project={'processor': r'^< det'},
         rule=DET_RULE, trusted=DET_TRUSTED,
         assumptions=['same event skeleton in both histories', 'dynamic threshold: no reset before/inside the FFC period (KNOWN-FINDING F7 otherwise)'],
     ),
     'C15': dict(
-        lean=['Props.C15', 'Props.PipeC15', 'Props.C11Thr', 'Props.FactsProc', 'Props.Pipeline'],
+        lean=['Props.C15', 'Props.PipeC15', 'Props.C11Thr', 'Props.FactsReset', 'Props.Pipeline'],
         streams=['detector', 'e2e', 'throttle', 'processor'],
         project={'throttle': r'^$', 'processor': r'^< det'},
         rule=DET_RULE, trusted=DET_TRUSTED,
@@ -188,7 +194,7 @@ PROPS = {
         assumptions=['time stamps of recordings in one directory are pairwise distinct (enforced by the F9 fix)', 'constant-recordings/ is not the output directory proper'],
     ),
     'C14': dict(
-        lean=['Props.C14', 'Props.C14Daemons', 'Props.FactsWiring', 'Props.FactsMain', 'Props.Pipeline'],
+        lean=['Props.C14', 'Props.C14Daemons', 'Props.FactsMarker', 'Props.FactsParserSel', 'Props.FactsMain', 'Props.Pipeline'],
         streams=['e2e', 'leptond', 'leptondloop', 'processor', 'detector', 'daemon'],
         project={'processor': r'^< det', 'detector': r'^$', 'daemon': r'^< (second|conn|header|start|info)'},
         rule=E2E_RULE + '; leptond stream: the real sendCameraSpecs of the camera daemon run on a lepton3.Lepton3 whose I2C command interface is a register-level fake (serials up to 2^63-1, '
@@ -198,7 +204,7 @@ PROPS = {
         assumptions=['frames do not begin with the bytes "clear" (indistinguishable from the marker in the wire format itself)', 'frame size >= 5'],
     ),
     'C11': dict(
-        lean=['Props.C11', 'Props.C13Parse', 'Props.FactsWiring', 'Props.FactsProc', 'Props.Pipeline', 'Props.C11Thr'],
+        lean=['Props.C11', 'Props.C13Parse', 'Props.FactsThrottleWiring', 'Props.FactsParserSel', 'Props.FactsRing', 'Props.FactsLimits', 'Props.FactsTestRec', 'Props.Pipeline', 'Props.C11Thr'],
         streams=['e2e', 'throttle', 'parse', 'daemon'],
         project={'parse': r'^$'},
         rule=E2E_RULE,
@@ -206,7 +212,7 @@ PROPS = {
         assumptions=['in-range settings (fps, preview-secs < 256; strings <= 255 bytes; motion YAML <= 255 bytes)', 'throttle refill disabled in e2e runs (min-refill 100 h, real clock)'],
     ),
     'C18': dict(
-        lean=['Props.C18', 'Props.C18Roll', 'Props.FactsWiring', 'Props.FactsWriterMain'],
+        lean=['Props.C18', 'Props.C18Roll', 'Props.FactsWriterHandoff', 'Props.FactsWriterMain'],
         streams=['writer'],
         rule='socket byte streams (YAML header + frames of 1 B .. 39 KiB, 0..700 frames, optionally cut inside the last frame) written in random segments with stalls, '
              'GOMAXPROCS 1/2/4/16, through net.Pipe into the real thermal-writer handleConn + writer goroutines; the file is read back byte for byte; '
